@@ -90,7 +90,15 @@ def main():
         print("INCONCLUSIVE: %s" % e)
         rep.finish()
         return 2
-    except Exception:
+    except BaseException as e:  # noqa: BLE001
+        if isinstance(e, (KeyboardInterrupt, SystemExit)):
+            raise
+        sig = core.library_raised(e)
+        if sig is not None:
+            # raised by the library itself at a point where the check expects an outcome the statement allows
+            rep.violation(sig, {"part": "outside the generated cases", "traceback": traceback.format_exc()[-3000:]},
+                          "the library raised %r" % (e,))
+            return rep.finish()
         # a bug in the machinery is never reported as a violation
         traceback.print_exc()
         print("INCONCLUSIVE: internal error in the check harness")
